@@ -22,9 +22,26 @@ def limit_pos(tonic, fn_suffix):
     return param_of_type(cb, LIMIT_TY) - 1
 
 
-def is_limit_param(body, term):
+def limit_at_call(tonic, caller, call_term, fn_suffix):
+    """the caller-side value that reaches the callee's message-size limit (a parameter, or the field of a settings struct)"""
+    cb = tonic.body(fn_suffix)
+    via = loc_through_call(caller, call_term, loc_of_type(tonic, cb, LIMIT_TY))
+    if via is None:
+        return ('unknown',)
+    if via[0] == 'loc':
+        t = ('arg', via[1][0], None)
+        for f in via[1][1]:
+            t = ('field', t, f)
+        return t
+    return via[1]
+
+
+def is_limit_param(body, term, tonic=None):
     t = strip_refs(term)
-    return bool(t) and t[0] == 'arg' and re.search(LIMIT_TY, body.ty(t[1])) is not None
+    if bool(t) and t[0] == 'arg' and re.search(LIMIT_TY, body.ty(t[1])) is not None:
+        return True
+    lo = loc_of(t)
+    return tonic is not None and lo is not None and lo in locs_of_type(tonic, body, LIMIT_TY)
 
 
 def run(R):
@@ -82,7 +99,7 @@ def run(R):
         R.saw(b)
         R.eq(tonic.const('codec::DEFAULT_MAX_SEND_MESSAGE_SIZE').get('v'), W['default_max_send'], 'C06.R2', 'default-send-const', 'tonic/src/codec/mod.rs', 'DEFAULT_MAX_SEND_MESSAGE_SIZE')
         slice_n = param_of_type(b, r'^&mut \[u8\]$')
-        lim_n = param_of_type(b, r'^(std::option::)?Option<usize>$')
+        lim_loc = loc_of_type(tonic, b, LIMIT_TY)
         is_paylen = lambda x: bool(find_terms(x, lambda y: y and y[0] == 'bin' and y[1] == 'SubWithOverflow' and const_val(y[3]) == W['header_size'] and find_terms(y[2], lambda z: is_call(z, name='len') and arg_root(z[2][0]) == slice_n)))
         writes = prefix_layout(b)
         R.floor('C06.R2', 'prefix writes', len(writes), 2)
@@ -114,7 +131,7 @@ def run(R):
             R.check(lt['exact'], 'C06.R2', '%s:operator' % nm, site(b, tb), 'test %s(%s, %s): exactly the lengths above the bound are refused: %r' % (lt['op'], show(lt['len'])[:60], show(lt['limit'])[:40], lt['exact']))
             if nm == 'limit':
                 lim = strip_refs(lt['limit'])
-                R.check(is_call(lim, name='unwrap_or') and arg_root(lim[2][0]) == lim_n and const_val(lim[2][1]) == W['default_max_send'], 'C06.R2', 'limit-source', site(b, tb), 'limit = %s' % show(lim))
+                R.check(is_call(lim, name='unwrap_or') and is_loc(lim[2][0], lim_loc) and const_val(lim[2][1]) == W['default_max_send'], 'C06.R2', 'limit-source', site(b, tb), 'limit = %s' % show(lim))
             rej = b.reach_ps(lt['reject'], removed={tb}) if lt['reject'] else set()
             around = b.reach_ps(0, removed={tb})
             errs = [(bb, i, ops) for bb, i, p, a, ops in mirlib.aggregates(b, 'result::Result', 'Err') if bb in rej and bb not in b.reach_ps(lt['accept'], removed={tb})]
@@ -219,12 +236,12 @@ def run(R):
             R.check(is_limit_param(eb, v), 'C06.R4', 'EncodedBytes.max_message_size', site(eb, bb, i), 'field = %s' % show(v))
         pn = tonic.body(re.compile(r'codec::encode::EncodedBytes<T, U> as .*Stream>::poll_next$'))
         bb, t = pn.call1(name='encode_item')
-        eip = limit_pos(tonic, 'codec::encode::encode_item')
-        R.check(field_names(pn.origin(t['args'][eip]))[-1:] == ['max_message_size'], 'C06.R4', 'poll_next->encode_item', site(pn, bb), 'limit = %s' % show(pn.origin(t['args'][eip])))
+        lv = limit_at_call(tonic, pn, t, 'codec::encode::encode_item')
+        R.check(field_names(lv)[-1:] == ['max_message_size'], 'C06.R4', 'poll_next->encode_item', site(pn, bb), 'limit = %s' % show(lv))
         ei = tonic.body('codec::encode::encode_item')
         bb, t = ei.call1(name='finish_encoding')
-        a = ei.origin(t['args'][limit_pos(tonic, 'codec::encode::finish_encoding')])
-        R.check(is_limit_param(ei, a), 'C06.R4', 'encode_item->finish_encoding', site(ei, bb), 'limit = %s' % show(a))
+        a = limit_at_call(tonic, ei, t, 'codec::encode::finish_encoding')
+        R.check(is_limit_param(ei, a, tonic), 'C06.R4', 'encode_item->finish_encoding', site(ei, bb), 'limit = %s' % show(a))
         # decoder constructors
         for ctor, idx in (('new_request', 3), ('new_response', 4)):
             cb = tonic.body('codec::decode::Streaming::<T>::' + ctor)
